@@ -6,12 +6,19 @@ META = {
             "target types under an explicit decidable WF), time_roundtrip + accepted_wf (every timestamp ParseTime accepts is printed and parsed "
             "back unchanged), rehash / chain_rehash (every entry of a chain of ANY length, read back from its JSON form, re-verifies against its "
             "decoded predecessor; hash function abstract, purely equational), store_roundtrip / chain_store_rehash (InsertLogs row + Logs.ToCore). "
-            "The model is tied to the Go code by a seeded differential on the real ChainedLog marshal/unmarshal, Log.ChainLog, ledgerstore.Logs.ToCore, "
-            "ledger.ParseTime and crypto/sha256: same trees, the exact marshalled BYTES and the HASH (hex) on both sides; an independent oracle evaluates "
-            "the property itself on the implementation's outputs.",
+            "The model is tied to the Go code by a seeded differential on the real ChainedLog marshal/unmarshal, Log.ChainLog, ledger.ParseTime, crypto/sha256 "
+            "and the real ledgerstore.Store: same trees, the exact marshalled BYTES and the HASH (hex) on both sides. The stored row is not rebuilt by the "
+            "harness: the REAL Store.InsertLogs runs (bun transaction, COPY prepared through lib/pq's statement text, one Exec per entry) over a database/sql "
+            "driver that plays the logs table and records the arguments; they are compared column by column with the model's row (the idempotency key AS IT "
+            "IS, keys around and beyond the column's width included), read back as a SELECT hands them over (Logs.ToCore), compared field by field with the "
+            "entry that was handed in and re-hashed over the previous row read back; GetLastLog, ReadLogWithIdempotencyKey and GetLogs of the same Store answer from "
+            "the same table. Entries written by the real Commander in the engine runs go through the same InsertLogs. An independent oracle evaluates the "
+            "property itself on the implementation's outputs.",
     "note": "Trusted: Lean kernel (axioms propext/Classical.choice/Quot.sound at most); the harness' canonical dump of Go values (integer Go types "
             "*big.Int/uint64 are one kind 'int', float64 is another); the process runs with TZ=UTC (time.Parse attaches Local when the offset matches); "
-            "PostgreSQL itself (jsonb re-orders object keys and timestamptz keeps microseconds: not executable here; the decoder looks fields up by name). "
+            "PostgreSQL itself and lib/pq's wire encoding (not executable here): harness/logstore.go states column by column what the table does with an argument "
+            "(varchar: the text — the length limit of idempotency_key is NOT enforced, see assumptions —, numeric: the decimal text, bytea: the bytes, "
+            "timestamp without time zone: the wall-clock reading at microsecond resolution, jsonb: keys re-ordered) and which SELECT shape it can answer. "
             "The v1->v2 log migration (migrations_v1.go) rewrites legacy logs and copies their hashes verbatim; it writes no DELETE_METADATA and is not modelled.",
     "technique": "Lean 4 proofs (structural induction, parser/printer inversion, omega) + differential correspondence at tree, byte and hash level",
     "design_ref": "3.6 (model D), 5 (C13), 6 #5 #11 #12, 8 (log round-trip probe), appendix C",
@@ -66,6 +73,10 @@ def first_diff(a, b, path=""):
     return None if a == b else path
 
 
+def bump(d, k):
+    d[k] = d.get(k, 0) + 1
+
+
 def cause_of(msg):
     m = str(msg)
     if "parsing time" in m or "timestamp" in m or "date format" in m:
@@ -104,20 +115,60 @@ def oracle_entry(spec, e):
             v.append((dict(base, **{"class": "rehash-mismatch"}),
                       "hash recomputed from the round-tripped content and the previous hash is %s (id %s), stored %s (id %s)" % (
                           e.get("rehash"), e.get("reid"), e["hash"], e["id"])))
+    # the stored row: what the REAL Store.InsertLogs handed to the database for this entry, read back as a SELECT hands it over
+    # (Logs.ToCore), compared field by field with the entry that was handed in; its hash recomputed over the previous row read back
     r = e.get("row", {})
-    if "ok" not in r:
+    if "error" in r:
+        v.append((dict(base, **{"class": "store-insert-error"}), "InsertLogs did not write the entry: %s" % r["error"]))
+    elif "ok" not in r:
         v.append((dict(base, **{"class": "store-decode-panic", "cause": cause_of(r.get("panic"))}), "Logs.ToCore panics on the stored row: %s" % r.get("panic")))
     else:
-        if canon(r["ok"]) != canon(e["dump"]):
-            v.append((dict(base, **{"class": "store-roundtrip-changed", "where": first_diff(e["dump"], r["ok"])}),
-                      "Logs.ToCore(row) differs from the written entry at %s" % first_diff(e["dump"], r["ok"])))
+        n_before = len(v)
+        for f, what in stored_row_diffs(e["dump"], r["ok"]):
+            v.append(({"class": "stored-row-differs", "field": f}, "the row InsertLogs wrote, read back through Logs.ToCore, is not the entry that was written: " + what))
         if r.get("rehash") != e["hash"]:
-            v.append((dict(base, **{"class": "store-rehash-mismatch"}), "hash recomputed from Logs.ToCore(row) is %s, stored %s" % (r.get("rehash"), e["hash"])))
-        # the row as PostgreSQL returns it (jsonb re-orders the keys of `data`) must convert to the same entry
+            v.append(({"class": "stored-entry-does-not-verify"},
+                      "the hash recomputed from the stored row (Logs.ToCore) over the previous stored row is %s, the entry was written with %s" % (r.get("rehash"), e["hash"])))
+        # the row as PostgreSQL returns it (jsonb re-orders the keys of `data`) must convert to the same entry (reported when the row with
+        # the data as written is fine: otherwise it says the same thing twice)
         rb = e.get("row_jsonb", {})
-        if "ok" not in rb or canon(rb["ok"]) != canon(e["dump"]) or rb.get("rehash") != e["hash"]:
+        if len(v) == n_before and ("ok" not in rb or canon(rb["ok"]) != canon(e["dump"]) or rb.get("rehash") != e["hash"]):
             v.append((dict(base, **{"class": "store-jsonb-order"}), "Logs.ToCore on the row with jsonb key order gives %s" % canon(rb)[:300]))
+    # the store's own reads over the same table: the last entry after the InsertLogs call that wrote this one; the entry found under its key
+    for k, name in (("last", "GetLastLog"), ("bykey", "ReadLogWithIdempotencyKey"), ("listed", "GetLogs")):
+        g = e.get(k)
+        if g is None or "skipped" in g:
+            continue
+        if "ok" not in g:
+            v.append(({"class": "store-read-fails", "read": name}, "%s does not find the entry just written: %s" % (name, g.get("error"))))
+        else:
+            for f, what in stored_row_diffs(e["dump"], g["ok"]):
+                v.append(({"class": "store-read-differs", "read": name, "field": f}, "%s answers an entry that is not the one written: %s" % (name, what)))
+    if e.get("table_refused"):
+        v.append((dict(base, **{"class": "harness-table"}), "the logs table of the harness cannot play a statement of the store: %s" % e["table_refused"][:2]))
     return v
+
+
+def short(x, n=80):
+    t = x if isinstance(x, str) else canon(x)
+    return repr(t) if len(t) <= n else repr(t[:n]) + "…"
+
+
+def stored_row_diffs(written, back):
+    """[(field, description)] for every field of the entry (id, type, date, idempotency key, payload, hash) that differs"""
+    out = []
+    names = {"ik": "idempotency key", "data": "payload"}
+    for f in ("id", "type", "date", "ik", "data", "hash"):
+        a, b = written.get(f), back.get(f)
+        if canon(a) != canon(b):
+            if f == "ik" and isinstance(a, str) and isinstance(b, str):
+                what = "written with an idempotency key of %d characters (%s), stored with one of %d characters (%s)" % (len(a), short(a, 40), len(b), short(b, 40))
+            elif f == "data":
+                what = "payload differs at %s" % first_diff(a, b)
+            else:
+                what = "%s written %s, stored %s" % (names.get(f, f), short(a), short(b))
+            out.append((names.get(f, f).replace(" ", "-"), what))
+    return out
 
 
 def oracle(inp, out):
@@ -177,6 +228,44 @@ def instant_of_text(s):
     total = (days_from_civil(y, mo, d) * 86400 + h * 3600 + mi * 60 + sec - off) * 10 ** 9 + ns
     total = (total + 500) // 1000 * 1000
     return total // 10 ** 9, total % 10 ** 9
+
+
+# ---------------------------------------------------------------- the width of the idempotency_key column (read from the sources on every run)
+
+def key_column_facts():
+    """what the sources say about the width of logs.idempotency_key: the schema (create table logs … in the migrations) and the bun tag of the
+    Go row type.  PostgreSQL refuses a longer value ("value too long for type character varying(n)"); nothing here executes PostgreSQL."""
+    facts = {"schema": None, "struct_tag": None, "schema_source": None, "struct_tag_source": None, "other_mentions_in_migrations": []}
+    mig = os.path.join(REPO, "internal/storage/ledgerstore/migrations")
+    try:
+        for f in sorted(os.listdir(mig)):
+            text = open(os.path.join(mig, f), errors="replace").read()
+            for m in re.finditer(r"create\s+table\s+(?:\S+\.)?logs\s*\((.*?)\)\s*;", text, re.S | re.I):
+                c = re.search(r"idempotency_key\s+(?:varchar|character varying)\s*\(\s*(\d+)\s*\)", m.group(1), re.I)
+                if c:
+                    facts["schema"], facts["schema_source"] = int(c.group(1)), "migrations/%s" % f
+            for m in re.finditer(r"alter\s+table[^;]*idempotency_key[^;]*;", text, re.S | re.I):
+                facts["other_mentions_in_migrations"].append("migrations/%s: %s" % (f, " ".join(m.group(0).split())[:200]))
+    except OSError as ex:
+        facts["error"] = str(ex)
+    try:
+        go = open(os.path.join(REPO, "internal/storage/ledgerstore/logs.go"), errors="replace").read()
+        t = re.search(r'bun:"idempotency_key,[^"]*type:varchar\((\d+)\)', go)
+        if t:
+            facts["struct_tag"], facts["struct_tag_source"] = int(t.group(1)), "ledgerstore/logs.go (type Logs)"
+    except OSError as ex:
+        facts["error"] = str(ex)
+    facts["agree"] = facts["schema"] is not None and facts["schema"] == facts["struct_tag"]
+    return facts
+
+
+def key_bucket(k, width):
+    n = len(k)
+    if n == 0:
+        return "none"
+    w = width or 255
+    return ("1" if n == 1 else "2-36" if n <= 36 else "37-%d" % (w - 1) if n < w else "%d (the column's width)" % w if n == w
+            else "%d" % (w + 1) if n == w + 1 else "%d and more" % (w + 2))
 
 
 # ---------------------------------------------------------------- counters
@@ -251,8 +340,10 @@ def run(ctx):
         "Model/Log/* is hand-written from internal/{log,time,transaction,posting}.go, ledgerstore/logs.go and Go 1.23 encoding/json, time, encoding/base64; "
         "tied to the code by the differential only (trees, bytes, hashes)",
         "harness/logrt.go: builds logs with the repo's constructors, canonical dump of Go values, recover() around the code under test",
+        "harness/logstore.go: the logs table behind the real ledgerstore.Store (records the COPY arguments of InsertLogs, hands rows back the way PostgreSQL + "
+        "lib/pq would for the column types of 0-init-schema.sql, evaluates `SELECT * FROM logs WHERE (col = 'literal' | id <= n) [AND …] ORDER BY id desc|asc LIMIT n`, nothing else)",
         "from-scratch SHA-256 in Lean, compared with crypto/sha256 on random inputs of every padding-boundary length on each run",
-        "TZ=UTC for the harness process; PostgreSQL (jsonb / timestamptz) not executed",
+        "TZ=UTC for the harness process; PostgreSQL (jsonb / timestamp / varchar(n)) not executed",
     ]
     ctx.l1()
     if not (ctx.ensure_driver() and ctx.ensure_harness()):
@@ -269,9 +360,21 @@ def run(ctx):
             e_inputs, e_impl, _ = er
             e_runs, _ = enginelib.evaluate(ctx, "C13", e_inputs, e_impl, lambda scn, run: False)
             stored = sum(1 for scn in e_inputs for run in e_impl.get(scn["id"], {}).get("runs", []) for l in run.get("durable", []) if "stored_ok" in l)
+            width = key_column_facts()["schema"]
+            bykey = {}
+            for scn in e_inputs:
+                for run in e_impl.get(scn["id"], {}).get("runs", []):
+                    for l in run.get("durable", []):
+                        if "stored_ok" in l:
+                            bump(bykey, key_bucket(l.get("ik") or "", width))
             ctx.cov["entries_written_by_the_commander"] = {"runs": e_runs, "stored_rows_read_back_and_rehashed": stored,
+                                                           "by_idempotency_key_length_in_characters": bykey,
                                                            "rule": "engine scenarios under the deterministic scheduler (requests overlapping between commit and InsertLogs, "
-                                                                   "restarts, store failures); each durable entry is encoded as InsertLogs does at the moment it is inserted"}
+                                                                   "restarts, store failures); every durable entry is written by the REAL ledgerstore.Store.InsertLogs "
+                                                                   "(one call per batch, at the moment the batch reaches the store) into a table that records the COPY "
+                                                                   "arguments, read back as a SELECT hands the row over (Logs.ToCore), compared field by field with the entry "
+                                                                   "handed in and re-hashed over the previous row; in one scenario out of five the idempotency keys are 255, "
+                                                                   "256 or 300 characters long"}
         if replay_area == "engine":
             ctx.cov["evaluations"] = ctx.cov.get("entries_written_by_the_commander", {}).get("stored_rows_read_back_and_rehashed", 0)
             return
@@ -297,6 +400,8 @@ def run(ctx):
     compare(ctx, "logrt:rehash-after-roundtrip", chains, impl, model,
             per_entry(lambda e: [e.get("rehash"), e.get("reid"), e.get("remarshal_same")]),
             per_entry(lambda e: [e.get("rehash"), e.get("reid"), e.get("remarshal_same")]))
+    # `row` on the implementation's side: the arguments the real InsertLogs passed to the database (cols, data) and Logs.ToCore of the row
+    # a SELECT hands back; on the model's side: toRow / toCore of Model/Log/Encode.lean (the key is kept AS IT IS)
     compare(ctx, "logrt:store-row+ToCore", chains, impl, model, per_entry(lambda e: rowcls(e.get("row"))), per_entry(lambda e: rowcls(e.get("row"))))
     compare(ctx, "logrt:store-row-through-jsonb+ToCore", chains, impl, model, per_entry(lambda e: rowcls(e.get("row_jsonb"))), per_entry(lambda e: rowcls(e.get("row_jsonb"))))
     compare(ctx, "logrt:ParseTime/Format/UTC", kinds.get("time", []), impl, model)
@@ -310,13 +415,19 @@ def run(ctx):
     # re-marshals as the raw character, so neither the key nor the recomputed hash agree
     ctx.cov["excluded_points_observed"] = {
         "invalid-utf8-idempotency-key": [dict(impl.get(i["id"]) or {}, hex=i["hex"]) for i in kinds.get("ikbytes", [])],
+        # DELETE /{ledger}/accounts/{address}/metadata/{key} with bytes in the path (percent-encoded or raw) through http.ReadRequest and the real
+        # v2 router: which bytes reach the backend, and what becomes of a DELETE_METADATA entry written with them (real InsertLogs, row read back)
+        "bytes-in-the-path-of-delete-metadata": [dict(impl.get(i["id"]) or {}, sent_hex=i["hex"], position=i.get("pos", "key")) for i in kinds.get("keybytes", [])],
         # legacy rows (sample of internal/storage/testdata/v1-dump.sql) through LogV1.ToLogsV2 + Logs.ToCore: they decode, their hash is the
         # v1 hash kept as hex text, which ChainLog cannot reproduce
         "v1-migrated-rows": [impl.get(i["id"]) for i in kinds.get("v1", [])]}
 
     # L3 — the property itself on the implementation's outputs
     seen, nontrivial, n_entries, n_refused = set(), 0, 0, 0
-    dist = {"log": {}, "chain_length": {}, "features": {}, "decode": {}, "time_cases": {"accepted": 0, "refused": 0}}
+    dist = {"log": {}, "chain_length": {}, "features": {}, "decode": {}, "time_cases": {"accepted": 0, "refused": 0},
+            "idempotency_key_length_in_characters": {}, "idempotency_key_multi_byte": 0, "idempotency_key_with_quote_backslash_or_control": 0,
+            "entries_per_InsertLogs_call": {}, "read_through_the_store": {"GetLastLog": 0, "ReadLogWithIdempotencyKey": 0, "GetLogs": 0, "skipped (NUL in the key)": 0}}
+    facts = key_column_facts()
     first_of_sig = {}
     for inp in inputs:
         out = impl.get(inp["id"])
@@ -337,6 +448,12 @@ def run(ctx):
             L = len(inp["logs"])
             b = "1" if L == 1 else "2-5" if L <= 5 else "6-20" if L <= 20 else "21-50"
             dist["chain_length"][b] = dist["chain_length"].get(b, 0) + 1
+            left = sum(1 for e in entries(out) if "input_error" not in e)
+            for size in (inp.get("batches") or []) + [1] * L:
+                if left <= 0:
+                    break
+                bump(dist["entries_per_InsertLogs_call"], str(min(size, left)))
+                left -= size
             for spec, e in zip(inp["logs"], entries(out)):
                 n_entries += 1
                 if "input_error" in e:
@@ -344,6 +461,13 @@ def run(ctx):
                     continue
                 k = spec["type"] + ("/" + spec["tt"] if spec.get("tt") else "") + ("/excluded:" + spec["excluded"] if spec.get("excluded") else "")
                 dist["log"][k] = dist["log"].get(k, 0) + 1
+                ik = spec.get("ik") or ""
+                bump(dist["idempotency_key_length_in_characters"], key_bucket(ik, facts["schema"]))
+                dist["idempotency_key_multi_byte"] += any(ord(ch) > 127 for ch in ik)
+                dist["idempotency_key_with_quote_backslash_or_control"] += any(ch in "'\"\\" or ord(ch) < 32 or ord(ch) == 127 for ch in ik)
+                for rk, name in (("last", "GetLastLog"), ("bykey", "ReadLogWithIdempotencyKey"), ("listed", "GetLogs")):
+                    if rk in e:
+                        bump(dist["read_through_the_store"], ("skipped (NUL in the key)" if rk == "bykey" else "skipped (GetLogs: excluded entry in the chain)") if "skipped" in e[rk] else name)
                 dk = "ok" if "ok" in e.get("dec", {}) else "error" if "error" in e.get("dec", {}) else "panic"
                 dist["decode"][dk] = dist["decode"].get(dk, 0) + 1
                 nonempty, f, nt = features(spec)
@@ -363,22 +487,37 @@ def run(ctx):
     ctx.cov["distinct_log_entries"] = len(seen)
     ctx.cov["distinct_nontrivial"] = nontrivial
     ctx.cov["rule"] = ("seeded chains of 1..50 logs over the four log types x both target types (timestamps as API text: offsets, 0..12 fraction digits, "
-                       "rounding carries; amounts up to 2^128; nil/empty/unicode/HTML/control-character metadata, references, idempotency keys), plus "
+                       "rounding carries; amounts up to 2^128; nil/empty/unicode/HTML/control-character metadata, references, idempotency keys; keys of 1 to 1000 characters around the width of the column, "
+                       "multi-byte, with quotes / backslashes / control characters; the entries handed to the real InsertLogs one by one or in batches), plus "
                        "ParseTime cases (valid and damaged), SHA-256 inputs of every padding boundary and foreign JSON texts; evaluations = log entries + "
                        "time + sha + foreign cases; non-trivial = distinct log entry (by content) whose payload is non-empty (postings or metadata / key) "
                        "and that has a non-UTC transaction timestamp, or a number >= 2^64, or non-ASCII or HTML-sensitive (<>&) metadata")
     ctx.cov["input_distribution"] = dist
+    if not facts["agree"]:
+        ctx.cov.setdefault("observations", []).append(
+            "the width of logs.idempotency_key is varchar(%s) in the schema (%s) and varchar(%s) in the bun tag of ledgerstore.Logs: the two disagree. The tag is "
+            "only used when bun creates a table (never for `logs`: the migrations do), so the schema's width is the one in force. Not a violation of C13."
+            % (facts["schema"], facts["schema_source"], facts["struct_tag"]))
     sample = [i for i in chains if len(i["logs"]) <= 2][:2] + kinds.get("time", [])[1:3]
     ctx.cov["samples"] = [{"input": i, "impl": json.loads(canon(impl.get(i["id"])))} for i in sample]
+    ctx.cov["idempotency_key_column"] = dict(facts, note="read from the sources of this run; PostgreSQL is not executed, the table of the harness keeps a key of any length")
     ctx.assumptions += [
-        "strings are valid UTF-8 (the API decodes JSON, which guarantees it); Lean strings are Unicode scalar sequences",
+        "a key longer than the idempotency_key column (varchar(%s) in %s; the bun tag of the Go row type says varchar(%s)) is refused by PostgreSQL "
+        "('value too long for type character varying'): InsertLogs fails and no such entry is ever stored. NOT EXECUTED HERE: the table of the harness keeps "
+        "a key of any length, and the code is held to: what InsertLogs hands to the database is exactly the entry that was hashed (longer keys included: "
+        "coverage.input_distribution.idempotency_key_length_in_characters)" % (facts["schema"], facts["schema_source"], facts["struct_tag"]),
+        "strings are valid UTF-8 (Lean strings are Unicode scalar sequences). The API guarantees it for everything that comes out of a JSON body, NOT for "
+        "the path parameters of DELETE /{ledger}/accounts/{address}/metadata/{key}: the percent-decoded bytes of {address} and {key} reach the commander "
+        "unchecked (observed on each run through http.ReadRequest + the real v2 router: coverage.excluded_points_observed.bytes-in-the-path-of-delete-metadata). "
+        "`…/metadata/a%FF` is answered 204; the DELETE_METADATA entry is hashed over the escape \\ufffd that encoding/json writes for the bad byte, stored as "
+        "that escape (valid jsonb: PostgreSQL accepts it), read back as U+FFFD, and its recomputed hash differs from the stored one. Such an entry of the "
+        "UNCHANGED code cannot be re-verified; it lies outside the model's strings, is reported as an observation of round 4 and is not counted by this check",
         "transaction ids in set/delete-metadata targets are in [0, 2^64): ids are allocated sequentially from 0 (the excluded points 2^64, 2^70, -1 are "
         "run on the real code: ParseUint error, as the model predicts; not counted as violations)",
         "every ledger.Time the engine handles is UTC on a microsecond: Now() and ParseTime produce nothing else (accepted_wf), so Logs.ToCore's "
         "conversion of the log date to UTC is the identity; a log date given as text with an offset goes through ParseTime like a transaction timestamp "
         "and is covered (no longer an excluded point)",
-        "an idempotency key that is not valid UTF-8 (possible only through the raw Idempotency-Key header; every other string comes out of a JSON "
-        "body or a validated address) is outside the model: encoding/json writes the escape \\ufffd for the bad bytes, the decoded key is U+FFFD and "
+        "an idempotency key that is not valid UTF-8 (possible through the raw Idempotency-Key header; the other non-JSON strings are the path parameters, see above) is outside the model: encoding/json writes the escape \\ufffd for the bad bytes, the decoded key is U+FFFD and "
         "re-marshals differently, so key and recomputed hash both differ (observed on each run: coverage.excluded_points_observed). Not counted as a "
         "violation: a UTF-8 PostgreSQL database refuses such a varchar, InsertLogs fails and no such log is ever stored (not executable here)",
         "entries copied by the v1->v2 migration (migrations_v1.go: LogV1.ToLogsV2) are outside: they were hashed by the v1 engine and keep that hash "
